@@ -296,6 +296,7 @@ func TestVerifRequestLoop(t *testing.T) {
 		t.Fatal(err)
 	}
 	rep := &simReport{Extra: map[string]any{}}
+	simOnStall("rl_result.json", rep)
 	defer func() {
 		rep.Events = ndj.Count()
 		ndj.Close()
@@ -342,7 +343,7 @@ func TestVerifRequestLoop(t *testing.T) {
 	}
 
 	// ---- W: forced windows
-	synctest.Test(t, func(t *testing.T) {
+	verifsim.Bubble(t, func(t *testing.T) {
 		name := "W1/connection-dies-between-SetClient-and-MarkAvailable"
 		e := newRLEnv(1, 3)
 		regs := e.cl.OnlineRegions("t")
@@ -365,7 +366,7 @@ func TestVerifRequestLoop(t *testing.T) {
 		e.goPut("a")
 		finish(e, name)
 	})
-	synctest.Test(t, func(t *testing.T) {
+	verifsim.Bubble(t, func(t *testing.T) {
 		// two regions share one connection; the connection dies while the first region is between SetClient and
 		// MarkAvailable; a request for the OTHER region notices first and takes the connection out of the cache; the first
 		// region is then released with the dead connection and must still get re-established
@@ -395,7 +396,7 @@ func TestVerifRequestLoop(t *testing.T) {
 		e.goPut("b")
 		finish(e, name)
 	})
-	synctest.Test(t, func(t *testing.T) {
+	verifsim.Bubble(t, func(t *testing.T) {
 		name := "W2/second-user-between-cache-removal-and-marking"
 		e := newRLEnv(1, 3)
 		regs := e.cl.OnlineRegions("t")
@@ -421,7 +422,7 @@ func TestVerifRequestLoop(t *testing.T) {
 		close(release)
 		finish(e, name)
 	})
-	synctest.Test(t, func(t *testing.T) {
+	verifsim.Bubble(t, func(t *testing.T) {
 		name := "W3/split-while-requests-wait"
 		e := newRLEnv(1, 2)
 		regs := e.cl.OnlineRegions("t")
@@ -437,7 +438,7 @@ func TestVerifRequestLoop(t *testing.T) {
 		e.cl.Split(regs[0], []byte("b"), "rs2", "rs3")
 		finish(e, name)
 	})
-	synctest.Test(t, func(t *testing.T) {
+	verifsim.Bubble(t, func(t *testing.T) {
 		// after a split only the first daughter gets into the cache (through the re-establisher of the parent); the second
 		// one is found by the first request beyond the first daughter's stop key - including a request for exactly that key
 		name := "W3b/request-for-exactly-the-split-key-after-a-split"
@@ -462,7 +463,7 @@ func TestVerifRequestLoop(t *testing.T) {
 	// that looked it up is between publishing it and starting its establisher. It must find the region already marked
 	// unavailable and wait - a second establisher for the same region ends in a panic (close of nil channel).
 	for _, overl := range []bool{false, true} {
-		synctest.Test(t, func(t *testing.T) {
+		verifsim.Bubble(t, func(t *testing.T) {
 			name := fmt.Sprintf("W5/second-caller-finds-the-region-while-its-finder-is-publishing-it/after-split=%v", overl)
 			e := newRLEnv(1, 2)
 			regs := e.cl.OnlineRegions("t")
@@ -507,7 +508,7 @@ func TestVerifRequestLoop(t *testing.T) {
 	// is already served elsewhere; meta catches up a little later. The establisher must look the region up again.
 	for _, late := range []time.Duration{50 * time.Millisecond, 3 * time.Second} {
 		for _, warm := range []bool{true, false} {
-			synctest.Test(t, func(t *testing.T) {
+			verifsim.Bubble(t, func(t *testing.T) {
 				name := fmt.Sprintf("W4/meta-lags-behind-a-move/catchup=%v/known-before=%v", late, warm)
 				e := newRLEnv(1, 2)
 				regs := e.cl.OnlineRegions("t")
@@ -544,7 +545,7 @@ func TestVerifRequestLoop(t *testing.T) {
 	}
 	for _, cls := range classes {
 		for _, op := range []string{"get", "put"} {
-			synctest.Test(t, func(t *testing.T) {
+			verifsim.Bubble(t, func(t *testing.T) {
 				name := "X/" + cls + "/" + op
 				e := newRLEnv(1, 2)
 				first := map[string]bool{}
@@ -582,7 +583,7 @@ func TestVerifRequestLoop(t *testing.T) {
 		nev := 1 + rng.Intn(8)
 		name := fmt.Sprintf("S/%d/q=%d/regions=%d/callers=%d/events=%d", k, queue, nreg, g, nev)
 		sr := rand.New(rand.NewSource(rng.Int63()))
-		synctest.Test(t, func(t *testing.T) {
+		verifsim.Bubble(t, func(t *testing.T) {
 			e := newRLEnv(queue, nreg)
 			servers := []string{"rs1", "rs2", "rs3"}
 			var desc []string
